@@ -26,6 +26,9 @@ type verifC03Comp struct {
 }
 
 func (c *verifC03Comp) Writer(w io.Writer) (WriteFlushCloser, error) {
+	if err := c.rec.OpenErr(); err != nil { // injected fault (fault stream)
+		return nil, err
+	}
 	s := c.rec.NewStream(w)
 	inner, err := c.Compression.Writer(s)
 	if err != nil {
